@@ -189,8 +189,8 @@ class Spec:
         v = self.env.get(name)
         if v is None:
             raise SpecError(f"unbound capture {name}")
-        if v == "":
-            return rx.EMPTY  # "the first occurrence may bind any NON-EMPTY instruction/operand"
+        if v == "" or "," in v or "|" in v:
+            return rx.EMPTY  # "the first occurrence may bind any NON-EMPTY instruction/operand": one operand, not two
         return self.w.lit(v, C)
 
     # ---------------------------------------------------------------- deref (C06)
@@ -259,6 +259,8 @@ class Spec:
         v = self.env.get(name)
         if v is None:
             raise SpecError(f"unbound capture {name}")
+        if v == "" or "|" in v:
+            return rx.EMPTY  # a binding is ONE non-empty instruction: text that spans two records is never a binding
         return concat([z3.Plus(self.HEX(C)), self.w.lit("::", C), self.w.lit(v, C), self.w.lit(",|", C)])
 
     def has_not(self, node):
